@@ -1,8 +1,9 @@
 """C03Q  No premature shutdown, no false stall, bounded response - on workflows WITH LIMITED INTERNAL QUEUES.
 
 (The unlimited-queue half of C03 is harness/props/c03.py over the Sched v1 model; this sub-check runs the same
-property over the Sched3Q model: a ready task may be left unsubmitted only while its queue is at its limit, counting
-exactly the preparing / submitted / running members.)"""
+property over the Sched3QR model (= Sched3QT of C05S: limited queues + manual triggers, extended with retry delays that
+are not over at once): a ready task may be left unsubmitted only while its queue is at its limit, counting exactly the
+preparing / submitted / running members; a task that only waits for its retry delay is no reason for a stall.)"""
 from __future__ import annotations
 
 import sys
@@ -122,12 +123,18 @@ class C03Q(SchedProp):
         'CylcModel.C03Q.stall_flag_only_if_stalled',
         'CylcModel.C03Q.no_stall_with_releasable',
         'CylcModel.C03Q.no_auto_shutdown_with_releasable',
+        'CylcModel.C03Q.no_stall_while_retry_pending',
+        'CylcModel.C03Q.tick_ends_every_delay',
+        'CylcModel.C03Q.pending_timers_are_retries',
+        'CylcModel.C03Q.manual_flag_cleared_at_submission',
+        'CylcModel.C03Q.queue_if_ready_and_the_manual_flag',
         'CylcModel.C03Q.shutdown_sound',
         'CylcModel.C03Q.stall_sound',
         'CylcModel.C03Q.main_loop_response',
     ]
     statement_note = 'see evidence'      # filled in below
-    technique = ('lemmas on the queue release functions of a Lean scheduler model with limited queues (Sched3Q) + '
+    technique = ('lemmas on the queue release functions and a frame pass over a Lean scheduler model with limited queues, '
+                 'manual triggers and an explicit retry clock (Sched3QR over Sched3QT) + '
                  'trace correspondence with the real Scheduler + a monitor judge on the observed traces')
     trusted = ['the pool snapshot taken by the harness at the moment TaskPool.is_stalled returns True (runner '
                '_instrument_pool) and the prerequisite expressions of the extracted instance graph, which the judge '
@@ -141,23 +148,35 @@ class C03Q(SchedProp):
             '1-2, no retries, mostly required success, every task fails / skips custom outputs with probability >= 0.3: '
             'finished-but-incomplete members stay in the pool while other members are queued), qa (limits 1-3, retries, '
             'failures, submit failures, duplicate / stale / out-of-order messages), qc (every job completes: automatic '
-            'shutdown), cmdqf / cmdq (the same with hold / release, hold point, pause, stop point, stop + restart); '
-            'five hand-written histories run first (a failed / submit-failed / incomplete-succeeded member must free its '
-            'slot); every automatic shutdown, every rise of the stall flag and every main loop of every run is judged; '
-            'non-trivial = a limited queue held back a ready task over a main loop; classes = (kind, ending, '
-            'finished-task-in-pool-while-a-limited-queue-holds-tasks, stall-event, launch count)')
+            'shutdown), cmdqf / cmdq (the same with hold / release, hold point, pause, stop point, stop + restart), qr '
+            '(most tasks have execution / submission retries, about half of the retry delays are PT1H: the runner keeps a '
+            'virtual clock for the retry timers that only the op tick advances, so tasks wait for a retry delay over '
+            'several main loops while other tasks finish incomplete; observed per op: the tasks whose retry delay is not '
+            'over, key rwait, predicted by the model), cmdqtr (the same with manual triggers of pooled tasks - `cylc '
+            'trigger` of members of full / free queues, of queued tasks, of tasks that failed - holds and pause, and the '
+            'prepared jobs handed over by the REAL submit_livelike_task_jobs: a triggered task whose job fails with a '
+            'retry lined up must come back through its queue); seven hand-written histories run first (a failed / '
+            'submit-failed / incomplete-succeeded member must free its slot; a pending retry delay is not a stall; the '
+            'retry of a triggered task is submitted); every automatic shutdown, every rise of the stall flag and every '
+            'main loop of every run is judged; non-trivial = a limited queue held back a ready task over a main loop, or '
+            'a task waited for a retry delay over a main loop, or a triggered task was retried; classes = (kind, ending, '
+            'finished-task-in-pool-while-a-limited-queue-holds-tasks, retry-wait, retried-after-trigger, stall-event, '
+            'launch count)')
     kinds = ('qf', 'qa', 'qr', 'qc', 'cmdqf', 'cmdqtr', 'cmdq', 'qr', 'qf', 'cmdqtr')
     n_quick = 48
     n_thorough = 600
     gen_opts = {'p_stop': 0.25}
     unmodelled = [
         'job submission / platforms / remote init (stub job runner: real prep_submit_task_jobs, launch recorded, '
-        'outcome delivered by explicit ops); with the stub a released task is prepared in the same main loop, so '
-        'waiting_on_job_prep is never observed set at an operation boundary (the model carries the flag)',
+        'outcome delivered by explicit ops; kind cmdqtr / qr: hand-over through the real submit_livelike_task_jobs '
+        'with nothing reaching the process pool); with the stub a released task is prepared in the same main loop, so '
+        'waiting_on_job_prep is observed at an operation boundary only after a manual trigger',
         'the static instance graph and the queue definitions are read off the real TaskDef / TaskProxy / '
         'IndepQueueManager objects and are inputs of the model (C13-C16, component-level C05)',
-        'manual triggering, reload, several flows, xtriggers other than zero-delay retry timers, clock-expiry, '
-        'datetime cycling, stop task',
+        'the wall clock: retry delays are either PT0S (over at the next sweep) or longer than any run (over after '
+        'the next tick of the virtual clock); group triggers beyond pooled, pairwise unconnected tasks; reload, several '
+        'flows, xtriggers other than retry timers, clock-expiry, datetime cycling, stop task; retry timers across a '
+        'restart (the kinds with long delays do not restart)',
     ]
 
     def corpus(self):
@@ -167,8 +186,8 @@ class C03Q(SchedProp):
     def translate(self):
         # the model builds on Sched3QT, whose probed behaviour flags (Generated/Sched3QTCfg.lean) are produced by the
         # C05S module: the same file, the same content, whichever check runs first
-        import c05s
-        return c05s.PROP.translate()
+        import core
+        return core.load_prop('C05S').translate()
 
     def impl_batch(self, inputs):
         # a start-up time-out of the scheduler's server thread (overloaded machine) says nothing about the
@@ -223,13 +242,27 @@ class C03Q(SchedProp):
             for q in o.get('qs', []):
                 if q[1] > 0 and q[2] and fin_names:
                     fin = True
-        if not bound:
+        # a task waited for a retry delay over a main loop; a manually triggered task was launched a second time
+        rw = any(b.get('rwait') and op.get('op') == 'loop' for b, op in zip(obs, ops))
+        trig = set()
+        retrig = False
+        for op, o in zip(ops, obs[1:]):
+            if op.get('op') == 'cmd' and op.get('name') == 'force_trigger_tasks':
+                trig |= {tuple(x) for x in o.get('man', [])}
+            for p_, n_, sn_ in o['launch']:
+                if sn_ > 1 and (p_, n_) in trig:
+                    retrig = True
+        if not (bound or rw or retrig):
             return None
         tags = [inp.get('kind', '?')]
         last = obs[-1]
         tags.append('stop' if last['stop'] else ('stalled' if last['stalled'] else 'cut'))
         if fin:
             tags.append('finished-while-queued')
+        if rw:
+            tags.append('retry-wait')
+        if retrig:
+            tags.append('retried-after-trigger')
         if any(o.get('stall_at') for o in obs):
             tags.append('stall-event')
         n = sum(len(o['launch']) for o in obs)
@@ -238,38 +271,47 @@ class C03Q(SchedProp):
 
 
 C03Q.statement_note = (
-    'proof over the Sched3Q model (scheduler core + holds / stop modes / stop point / stop task / pause / clean restart + '
-    'limited internal queues), for every instance graph, every queue table, every state (reachable or not) and every '
-    'operation: (a) shutdown_sound - a scheduler that was not asked to stop (no stop mode, no stop task) raises the stop '
-    'flag only in a main loop, with reason AUTOMATIC, in the pool the decision was taken on (after compute_runahead / '
-    'release_runahead_tasks), and that pool has no preparing / submitted / running proxy, no released waiting proxy, no '
-    'finished-incomplete proxy and no proxy within the stop point waiting on an output within the stop point - in '
-    'particular no queue holds a ready task (no_auto_shutdown_with_releasable for check_auto_shutdown itself); (b) '
-    'stall_sound - the stall flag is raised only by a main loop of a scheduler that is not paused, and only when '
-    'TaskPool.is_stalled holds of the pool at the decision point or of the pool the loop ends in; is_stalled_iff - that '
-    'is exactly: nothing preparing / submitted / running (so every queue has all its slots free), no released waiting '
-    'proxy with satisfied prerequisites (so no queue holds a ready task: no_stall_with_releasable), and some proxy '
-    'incomplete or partially satisfied within the stop point; stall_flag_only_if_stalled for check_workflow_stalled; '
-    '(c) bounded response with queue limits: active_count_spec - the number count_active_tasks / release_queued_tasks '
-    'charge to a queue is exactly the number of pooled members that are preparing, submitted, running or '
-    'released-awaiting-job-preparation; finished_never_counts / no_slot_taken_without_job - a waiting or finished '
-    '(failed, submit-failed, succeeded, expired) proxy is never counted, the count equals the count in the pool without '
-    'its finished proxies: finished-but-incomplete members retained in the pool never block their queue; queue_progress - '
-    'the release loop of one queue leaves a task that is not held in the deque only if limit > 0 and counter + released '
-    '>= limit; release_progress - the same for release_queued_tasks over all (independent) queues of a state satisfying '
-    'the run invariants of C05S (queue_invariants_run); release_some_when_free_slot - a queue with a free slot and a '
-    'queued task that is not held releases at least one task; released_is_launched - every released waiting proxy is '
-    'launched under its next submit number by the same release step; release_step_response - together; '
-    'main_loop_response - over a WHOLE main loop of a scheduler that is neither paused nor stopping: every proxy that '
-    'sits in a queue after this loop\'s runahead release and ready-sweep, is waiting and not held is in the launch log '
-    'of this very loop under its next submit number, or its queue is at its limit counting the members preparing / '
-    'submitted / running / awaiting preparation plus what this loop released from it. PARTIAL with respect to the '
-    'property text: main_loop_response starts from "sits in a queue after the sweep"; that a task which is ready at '
-    'the START of the loop sits in its queue after the sweep is not proved (it needs the invariant "queued flag = member '
-    'of the deque of its queue", which an unsolicited job message breaks: finding unsolicited-message-activation of '
-    'C05S) - the judge checks the start-of-loop statement on every real trace; independence of the queues is a '
-    'hypothesis (component-level C05, checked on every run by the C05S judge); xtriggers other than zero-delay retry '
-    'timers are not in the model; as in C03, a freshly spawned runahead-flagged ready task is ignored by is_stalled '
-    '(finding stall-runahead-pending, witness theorem in Props/C03.lean)')
+    'proof over the Sched3QR model = Sched3QT (the model of C05S: scheduler core + holds / stop modes / stop point / stop '
+    'task / pause / clean restart + limited internal queues + manual triggers of pooled tasks) with retry delays that '
+    'are not over at once (explicit clock: the set of pending future retry timers, op tick), for every instance graph, '
+    'every queue table, every state (reachable or not), every set of pending timers and every operation: (a) '
+    'shutdown_sound - a scheduler that was not asked to stop (no stop mode, no stop task) raises the stop flag only in a '
+    'main loop, with reason AUTOMATIC, in the pool the decision was taken on (after compute_runahead / '
+    'release_runahead_tasks), and that pool has no preparing / submitted / running proxy, no released waiting proxy (so '
+    'none waiting for a retry delay), no finished-incomplete proxy and no proxy within the stop point waiting on an '
+    'output within the stop point - in particular no queue holds a ready task (no_auto_shutdown_with_releasable for '
+    'check_auto_shutdown itself); (b) stall_sound - the stall flag is raised only by a main loop of a scheduler that is '
+    'not paused, and only when TaskPool.is_stalled holds of the pool at the decision point or of the pool the loop ends '
+    'in; is_stalled_iff - that is exactly: nothing preparing / submitted / running (so every queue has all its slots '
+    'free), no released waiting proxy with satisfied prerequisites (so no queue holds a ready task: '
+    'no_stall_with_releasable; and no task only waits for its retry delay: no_stall_while_retry_pending - whatever the '
+    'retry xtrigger and the clock say), and some proxy incomplete or partially satisfied within the stop point; '
+    'stall_flag_only_if_stalled for check_workflow_stalled; (c) bounded response with queue limits: active_count_spec - '
+    'the number count_active_tasks / release_queued_tasks charge to a queue is exactly the number of pooled members that '
+    'are preparing, submitted, running or released-awaiting-job-preparation; finished_never_counts / '
+    'no_slot_taken_without_job - a waiting or finished (failed, submit-failed, succeeded, expired) proxy is never '
+    'counted, the count equals the count in the pool without its finished proxies: finished-but-incomplete members '
+    'retained in the pool never block their queue; queue_progress - the release loop of one queue leaves a task that is '
+    'not held in the deque only if limit > 0 and counter + released >= limit; release_progress - the same for '
+    'release_queued_tasks over all (independent) queues of a state satisfying the run invariants of C05S; '
+    'release_some_when_free_slot - a queue with a free slot and a queued task that is not held releases at least one '
+    'task; released_is_launched - every released waiting proxy is launched under its next submit number by the same '
+    'release step; release_step_response - together; main_loop_response - over a WHOLE main loop (any pending timers) '
+    'of a scheduler that is neither paused nor stopping: every proxy that sits in a queue after this loop\'s runahead '
+    'release and clock-aware ready-sweep, is waiting and not held is in the launch log of this very loop under its next '
+    'submit number, or its queue is at its limit counting the members preparing / submitted / running / awaiting '
+    'preparation plus what this loop released from it; the clock: tick_ends_every_delay - a tick leaves no timer '
+    'pending and with no timer pending the main loop is the zero-delay main loop of Sched3QT (its sweep satisfies '
+    'every retry xtrigger), pending_timers_are_retries; the manual-submit flag: manual_flag_cleared_at_submission - '
+    'the hand-over of a job clears it, queue_if_ready_and_the_manual_flag - queue_if_ready skips a proxy with the flag '
+    'and queues a ready proxy without it (so the retry of a triggered task comes back through its queue). PARTIAL with '
+    'respect to the property text: main_loop_response starts from "sits in a queue after the sweep"; that a task which '
+    'is ready at the START of the loop sits in its queue after the sweep is not proved (it needs the invariant "queued '
+    'flag = member of the deque of its queue", which an unsolicited job message breaks: finding '
+    'unsolicited-message-activation of C05S) - the judge checks the start-of-loop statement on every real trace, '
+    'retries and manual triggers included; independence of the queues is a hypothesis (component-level C05, checked on '
+    'every run by the C05S judge); retry delays are PT0S or longer than the run, other xtriggers are not in the model; '
+    'as in C03, a freshly spawned runahead-flagged ready task is ignored by is_stalled (finding stall-runahead-pending, '
+    'witness theorem in Props/C03.lean)')
 
 PROP = C03Q()
